@@ -174,6 +174,7 @@ def evaluate(chk, jobs, res, prop):
                                 if produced and not same:
                                     chk.violation("window-read-not-scheduled-payload(float)", f"episode {e}: {n}[{c['seq'][k]}] entry seq {ent[0]} of {snd} carries float "
                                                   f"payload {fv}, the producer emitted {want}", case); break
+            if prop == "C08": chk.feat("extra_ok-accepts(buffer_sufficient applies)" if m.get("extraok") == 1 and m["check"] == 1 else "extra_ok-or-check_schedule-rejects")
             if m["checksym"] != 1 and not j.get("starting_step"):
                 chk.violation("window-read-not-scheduled-payload", f"episode {e}: symbolic run with ring sizes {r['ring']}: some window entry is not the "
                               f"scheduled producer's output (an output was overwritten before its last reader, or a wrong slot was read)", case)
